@@ -142,8 +142,8 @@ pub async fn scenario() {
 	let buf_cap = *rt::pick("buf_cap", &[1024u32, 1, 2, 4]);
 	let frag = match rt::draw("frag", 4) {
 		0 | 1 => Frag::default(),
-		2 => Frag { short: true, latency_ms: 0 },
-		_ => Frag { short: true, latency_ms: 5 },
+		2 => Frag { short: true, latency_ms: 0, cap: 0 },
+		_ => Frag { short: true, latency_ms: 5, cap: 0 },
 	};
 	let batch_cfg = match rt::draw("batch_cfg", 6) {
 		0 => BatchRequestConfig::Disabled,
